@@ -36,7 +36,7 @@ class Contract:
     def __init__(self, key, types=None, returns=None, requires=(), ensures=(), modifies=(), raises=None,
                  decreases=None, ghost_exit=None, bitvector=None, pure=False, variants=None, notes="",
                  kwargs_types=None, havoc_result=True, max_paths=400, loops=None, allow_global_writes=(),
-                 hint_terms=(), use_lemmas=(), reads=(), trusted=False):
+                 hint_terms=(), use_lemmas=(), reads=(), trusted=False, trusted_ensures=(), prune=False):
         self.key = key
         self.types = dict(types or {})
         self.returns = returns
@@ -56,6 +56,8 @@ class Contract:
         self.hint_terms = list(hint_terms)
         self.reads = list(reads)
         self.trusted = trusted
+        self.trusted_ensures = list(trusted_ensures)
+        self.prune = prune
         self.use_lemmas = use_lemmas if isinstance(use_lemmas, dict) else {"": list(use_lemmas)}
 
     @property
@@ -64,13 +66,15 @@ class Contract:
 
 
 class LoopContract:
-    def __init__(self, targets, invariant, modifies=(), decreases=None, index="_i", seq=None, heap_modifies=()):
+    def __init__(self, targets, invariant, modifies=(), decreases=None, index="_i", seq=None, heap_modifies=(),
+                 stepwise=()):
         self.targets = targets          # loop target names (fingerprint)
         self.invariant = list(invariant)  # clauses over locals + index var
         self.modifies = list(modifies)  # local names havoc'd (in addition to syntactically assigned)
         self.heap_modifies = list(heap_modifies)
         self.decreases = decreases
         self.index = index
+        self.stepwise = list(stepwise)
 
 
 class SpecFn:
